@@ -1,10 +1,18 @@
 import DymVerif.Driver.Common
 import DymVerif.Model.Incent
+import DymVerif.Lemmas.IncentDue
 /-
   Driver/C15 — line-protocol driver of M-Incent.  One op per line; the observation is the op's
   outcome class followed by the canonical state (`ok | t=… P=… G=… S=… U=… A=… F=… B=…`).
   `lock` / `unlock` / `xferowner` / `delegate` / `vote` / `revoke` lines are not model ops (answered with
   `harness-only`); the sponsorship distribution they produce reaches the model through a `distribution` line.
+  `forceowner r a` (harness-only as well) writes a rollapp's owner straight into the real rollapp store (fault
+  injection: since fix F4 no message hands a rollapp to a blocked address); the `rollapp` line after it tells the model.
+  Every `begin` / `end` line with outcome `ok` carries two more fields, computed by the SPECIFICATION functions of
+  Lemmas/IncentDue on the state BEFORE the op: `D=[a:c0,c1 …]` = `blockDue` of every candidate account (actors,
+  lock owners, rollapp owners; the two module accounts 100/101 excluded) and `H=[gid:c0,c1 …]` = `blockHandout` of
+  every gauge id distributed in the block, non-zero entries only.  The harness prints the real balance deltas and
+  the real deltas of the gauges' distributed coins there.
 -/
 namespace DymVerif.Driver.C15
 open DymVerif DymVerif.Incent DymVerif.Driver
@@ -55,6 +63,22 @@ def showState (d : DState) : String :=
   let e := ",".intercalate (s.epochs.map (fun ep => toString ep.curStart))
   s!"t={s.now} it={s.maxIter} E={e} P={",".intercalate (s.ptrs.map showPtr)} G=[{g}] S=[{st}] U={showIds s.upcoming.ids} A={showIds s.active.ids} F={showIds s.finished.ids} B=[{b}]"
 
+def dedupSorted (l : List Nat) : List Nat := (l.mergeSort (· ≤ ·)).eraseDups
+
+/-- ` D=[…] H=[…]`: what the specification (`blockDue` / `blockHandout`, i.e. `dueG` / `dueTotal` summed over the
+    gauge values `gs` the block distributes) says every account is due and every gauge hands out, read in the
+    state before the op -/
+def showDue (d : DState) (gs : List Gauge) : String :=
+  let s := d.s
+  let cand := dedupSorted (((List.range d.na) ++ s.locks.map (·.owner) ++ s.rollapps.map (·.owner)).filter
+    (fun a => a != streamerAddr && a != incAddr))
+  let row (k : Nat) (f : Nat → Nat) : Option String :=
+    let c := (List.range d.nd).map f
+    if c.all (· == 0) then none else some s!"{k}:{",".intercalate (c.map toString)}"
+  let ds := cand.filterMap (fun a => row a (blockDue s gs a))
+  let hs := (dedupSorted (gs.map (·.id))).filterMap (fun gid => row gid (blockHandout s gs gid))
+  s!" D=[{" ".intercalate ds}] H=[{" ".intercalate hs}]"
+
 def parseOp (f : List String) : Option Op :=
   match f with
   | ["begin", dt] => some (.begin (nat! dt))
@@ -83,7 +107,7 @@ def step (d : DState) (f : List String) : DState × String :=
     (d', "ok | " ++ showState d')
   -- harness-only lines: executed on the real lockup / rollapp module only (their effect reaches the model
   -- through the `locks` / `rollapp` line that follows)
-  | "lock" :: _ | "unlock" :: _ | "xferowner" :: _ | "delegate" :: _ | "vote" :: _ | "revoke" :: _ => (d, "harness-only")
+  | "lock" :: _ | "unlock" :: _ | "xferowner" :: _ | "forceowner" :: _ | "delegate" :: _ | "vote" :: _ | "revoke" :: _ => (d, "harness-only")
   | _ =>
     match parseOp f with
     | none => (d, "bad-op")
@@ -92,6 +116,8 @@ def step (d : DState) (f : List String) : DState × String :=
       let d' := { d with s := s' }
       match o, op with
       | .halt, _ => (d', "halt")
+      | .ok, .begin dt => (d', "ok | " ++ showState d' ++ showDue d (beginGauges d.s dt))
+      | .ok, .end_ => (d', "ok | " ++ showState d' ++ showDue d (endGauges d.s))
       | .ok, _ => (d', "ok | " ++ showState d')
       | e, .end_ => (d', "halt " ++ e.str)
       | e, _ => (d', e.str ++ " | " ++ showState d')
